@@ -207,7 +207,10 @@ func sharedIdentity(n *node) {
 	for twi, tw := range sharedTwins {
 		var orders []string
 		if n.r.Thorough() {
-			orders = sharedOrders
+			// thorough: three of the five histories per twin and node; nodes and worlds rotate through all of them
+			for k := 0; k < 3; k++ {
+				orders = append(orders, sharedOrders[(twi+offset+k)%len(sharedOrders)])
+			}
 		} else {
 			// quick: every twin under two histories, one of which registers the twin before the participant's (re)connection
 			orders = []string{sharedOrders[(twi+offset)%len(sharedOrders)], sharedOrders[(twi+offset+2)%len(sharedOrders)]}
